@@ -1,6 +1,8 @@
 import QG.Lemmas.BackendEfficient
 import QG.Lemmas.BackendOnes
 import QG.Lemmas.BackendCorollaries
+import QG.Lemmas.BackendBinaryBridge
+import QG.Props.C02
 /-!
 # C01 — every layer-based backend applies exactly the layered Kronecker product
 
@@ -23,11 +25,13 @@ correspondence runs).
 Not theorems (said here so that nothing is silently dropped):
 * "the input vector is left unmodified" is a statement about aliasing of numpy buffers; the model is purely functional.
   It is observed by the harness on every case (bytes of `psi0` before / after).
-* "the index-based backend fed the same matrices item by item returns the same vector":
-  -- theorem binary_layer_spec : binary n (itemsOf L) ψ = .ok (specApply n L ψ)
-  needs C02's `binary_spec` (QG.Props.C02, over `QG.Spec.Register`) and a bridge between `Register.E1/E2` (bit-vector
-  embedding) and `KronFlat.kron` (flat indices): `layerMat l = Π embed (blocks of l)`.  Left to the coordinator; the
-  harness checks the clause against the oracle on every run (operator construction with the optimizer bypassed).
+
+The clause "the index-based backend fed the same matrices item by item returns the same vector" IS a theorem here
+(`binary_layer_spec`): C02's `binary_spec` (QG.Props.C02: `BinaryBackend.statevector`, optimizer included, applies the
+items one after another in the bit-vector register `QG.Spec.Register`) composed with the bridge
+`QG.Lemmas.Backend.sem_layers` (the embedding `E1`/`E2` of a gate on qubit `q` / the adjacent pair `(q, q+1)` is
+`1 ⊗ M ⊗ 1` on flat indices, and a layer's Kronecker product is the product of the embeddings of its blocks,
+`layer_eq_prod_embed`).
 -/
 open Finset QG.Model.Backend QG.Lemmas.Backend
 open QG.Spec.KronFlat hiding Leg
@@ -297,6 +301,56 @@ theorem msb_first (I A : Mat R) (hI : I.dim = 2) (hIf : fn I = idMat 2) (hA : A.
       · exact hK) _ _ (by rw [hd3]; exact hidx)]
   exact einsum_three (2 ^ p) (2 ^ k) hK (fn A) (vfn ψ) hi a lo ha hlo
 
+/-! ## the index-based backend on the same matrices, item by item -/
+
+/-- a layer's Kronecker product is the product of the embeddings `1 ⊗ block ⊗ 1` of its blocks, applied one after the
+other in list order (scalar placeholders contribute the factor 1) -/
+theorem layer_eq_prod_embed (n : ℕ) (l : Layer (Mat R)) (hwf : Layer.wf n l = true) (v : ℕ → R) (i : ℕ)
+    (hi : i < 2 ^ n) :
+    mulVec (2 ^ n) (layerMat l) v i = applyBlocks 1 (l.map blockLeg) v i := by
+  obtain ⟨hw, hlen⟩ := wf_wfi hwf
+  have hd : dims (l.map blockLeg) = 2 ^ n := by rw [hw.length_dims, hlen]
+  rw [applyBlocks_eq 1 (by omega) _ hw.good _ i (by rw [hd, Nat.one_mul]; exact hi), hd, Nat.one_mul]
+  have : kronList (((1, none) : SLeg R) :: l.map blockLeg) = layerMat l := by
+    rw [kronList_cons]
+    exact kron_one_left (isCut_kronList _ hw.good)
+  rw [this]
+
+/-- `BinaryBackend(n).statevector(items, ψ)` (C02's model: level-4 optimizer, then dense / sparse operator construction
+item by item) on the item list `[[M, [q]], [G, [q, q+1]], …]` of the same layers (`layersItems`: a 2x2 entry at list
+position `q` is `[M, [q]]`, a 4x4 entry with its placeholder after or before it is `[G, [q, q+1]]`, layer after layer)
+returns the same vector as the layer-based backends -/
+theorem binary_layer_spec (n : ℕ) (L : List (Layer (Mat R))) (ψ : Array R) (h : Admissible n L ψ) :
+    QG.Model.Binary.statevector (QG.Spec.Register.semiringScalar R) (QG.Spec.Register.matOps R)
+        (QG.Spec.Register.regEntries R) n ((layersItems L).map toRaw) ψ.toList =
+      .ok (specApply n L ψ).toList := by
+  have hwf : ∀ l ∈ L, WFI l ∧ l.length = n := fun l hl => wf_wfi (h.wf l hl)
+  have hnorm : ((layersItems L).map toRaw).map QG.Model.Optimizer.normalize = layersItems L := by
+    rw [List.map_map]
+    conv_rhs => rw [← List.map_id (layersItems L)]
+    apply List.map_congr_left
+    intro x _
+    exact normalize_toRaw x
+  rw [QG.C02.binary_spec n _ (by rw [hnorm]; exact wf_layersItems L hwf)
+    (by simpa using layersItems_ne h.n_pos L h.nonempty hwf) ψ.toList (by simpa using h.size), hnorm]
+  congr 1
+  rw [listOf_eq_ofFn]
+  unfold specApply
+  congr 2
+  funext i
+  rw [sem_layers L hwf _ i.val i.isLt]
+  exact specFn_congr' n L _ _ (fun j hj => flatOf_vecOf ψ j hj) i.val i.isLt
+
+/-- the items of `binary_layer_spec` act on exactly the qubits that the executable `itemQubits` of the model lists (the
+driver's `items` op, compared on every run with the item lists the harness hands to the real `BinaryBackend`) -/
+theorem binary_items_qubits (L : List (Layer (Mat R))) :
+    (layersItems L).map itemQ = L.flatMap fun l => itemQubits Mat.dim l 0 := by
+  induction L with
+  | nil => rfl
+  | cons l rest ih =>
+    simp only [layersItems, List.flatMap_cons, List.map_append] at ih ⊢
+    rw [ih, itemsFrom_qubits]
+
 /-! ## non-vacuity: concrete objects satisfy the hypotheses -/
 
 section Examples
@@ -331,6 +385,14 @@ example : (splitRun true (List.range 20)).map List.length = [5, 5, 5, 5] ∧
     (splitRun false (List.range 20)).map List.length = [5, 5, 5, 5] ∧
     (splitRun true (List.range 13)).map List.length = [4, 4, 5] ∧
     (splitRun false (List.range 13)).map List.length = [6, 7] := by decide
+
+/-- the item list of `binary_layer_spec` for the two-layer circuit above: qubits `[0], [1,2]` then `[0,1], [2]` (both
+placeholder sides give the ascending adjacent pair) -/
+example : (layersItems ([[.mat mA, .mat mG, .scalar], [.scalar, .mat mG, .mat mI]] : List (Layer (Mat ℤ)))).map
+    (fun x => match x with
+      | .one _ q => [q]
+      | .two _ a b => [a, b]) = [[0], [1, 2], [0, 1], [2]] := by
+  simp [layersItems, itemsFrom, mA, mG, mI]
 
 /-- `msb_first` is not vacuous: an identity representation and a 2x2 matrix exist -/
 example : mI.dim = 2 ∧ fn mI = idMat 2 ∧ mA.dim = 2 := by
